@@ -54,7 +54,7 @@ def match_known(pid, v, known):
     marker; any other violation of the same property is still reported."""
     import fnmatch
     for k in known:
-        if k.get("property") != pid:
+        if k.get("property") != pid and pid not in k.get("also_properties", []):
             continue
         if v["kind"] == "obligation":
             if any(fnmatch.fnmatch(v["obligation"], pat) for pat in k.get("obligations", [])):
@@ -125,7 +125,8 @@ def main():
     results = [] if a.no_prove else pyrun.verify(props=[pid], timeout_s=timeout, repo=REPO)
     trusted = pyrun.trusted([pid])
     lock = json.load(open(LOCK)) if os.path.exists(LOCK) else {}
-    locked = lock.get(pid, {})
+    locked = lock.get(pid, {}).get("obligations", {})
+    locked_hash = lock.get(pid, {}).get("functions", {})
     known, fixed = load_known()
     violations, undecided, errors, known_lines = [], [], [], []
     obls = []
@@ -164,11 +165,21 @@ def main():
                                "was_locked": oid in locked, "function": o["function"],
                                "file": fn_by_name.get(o["function"], {}).get("file")})
         elif o["status"] != "unsat":
-            undecided.append({"obligation": oid, "reason": f'{o["solver"]}: unknown {o.get("reason", "")} cvc5={o.get("cvc5", "-")}',
-                              "was_locked": oid in locked})
+            fnr = fn_by_name.get(o["function"], {})
+            changed = locked_hash.get(o["function"]) not in (None, fnr.get("source_hash"))
+            why = f'{o["solver"]}: unknown {o.get("reason", "")} cvc5={o.get("cvc5", "-")}'
+            if oid in locked and changed:
+                # discharged on the pinned tree, the function's source has changed since, and the proof no longer
+                # goes through: reported as a violation without a failing input (the solver gave no model)
+                violations.append({"kind": "obligation", "obligation": oid, "note": o.get("note", ""), "line": o.get("line"),
+                                   "model": {}, "solver": o["solver"], "solver_output": why, "was_locked": True,
+                                   "undischarged": True, "function": o["function"], "file": fnr.get("file")})
+            else:
+                undecided.append({"obligation": oid, "reason": why, "was_locked": oid in locked,
+                                  "function_source_changed": changed})
     # vacuity guard against the lock file: every function proved on the pinned tree must still produce obligations
     # (obligation ids may legitimately shift when a function body is edited, so they are not compared one by one)
-    locked_fns = {oid.split("/")[0] for oid in locked}
+    locked_fns = set(locked_hash) or {oid.split("/")[0] for oid in locked}
     have_fns = {oid.split("/")[0] for oid in by_id}
     for fnm in sorted(locked_fns - have_fns):
         if not a.no_prove and not any(u.get("function") == fnm for u in undecided):
@@ -194,7 +205,11 @@ def main():
         rp = os.path.join(ROOT, "replay", pid, (key.replace("/", "__").replace(" ", "_")[:150]) + ".json")
         payload = {"property": pid, "tree": tree_id(), **v}
         suffix = ""
-        if v["kind"] == "obligation":
+        if v["kind"] == "obligation" and v.get("undischarged"):
+            payload["replay"] = {"reproduced": False, "reason": "the solver returned no counter-model (unknown); "
+                                 "the obligation was discharged on the pinned tree and the function has changed"}
+            suffix = " no-failing-input-found"
+        elif v["kind"] == "obligation":
             rep = replay_model(pid, v, fn_by_name[v["function"]])
             payload["replay"] = rep
             if not rep.get("reproduced"):
@@ -243,7 +258,8 @@ def main():
     os.makedirs(os.path.join(ROOT, "evidence"), exist_ok=True)
     json.dump(ev, open(os.path.join(ROOT, "evidence", f"{pid}.json"), "w"), indent=1, default=str)
     if a.update_lock:
-        lock[pid] = {oid: o["solver"] for oid, o in sorted(by_id.items()) if o["status"] == "unsat"}
+        lock[pid] = {"obligations": {oid: o["solver"] for oid, o in sorted(by_id.items()) if o["status"] == "unsat"},
+                     "functions": {r["function"]: r.get("source_hash") for r in results if not r["error"]}}
         json.dump(lock, open(LOCK, "w"), indent=1, sort_keys=True)
     for ln in known_lines:
         print(ln)
